@@ -109,6 +109,9 @@ func TestC20(t *testing.T) {
 			if res.EarlyStop {
 				r.Count("bare.stop_or_cancel_right_after_construction", 1)
 			}
+			if res.TwoControllers && res.CtlCalls >= 2 {
+				r.Count("bare.v1_scenarios_with_two_concurrent_control_goroutines", 1)
+			}
 			r.NonTrivial("bare:" + jsonString(sc))
 		}
 	})
